@@ -8,7 +8,8 @@ accesses to the per-user config files (active only under ABLAB_ISOQUANT_VERIF=1;
 barrier(label): wait until the next slot of the schedule names this process (slots of processes that have finished
 their cache phase or exited are skipped); when the schedule is exhausted everybody runs freely.
 Barrier points: os.path.exists / open(..,'w') / close / open(..,'r') / os.replace on a config file,
-gtf2db.find_converted_db, the conversion gtf2db.gtf2db.
+gtf2db.find_converted_db, the conversion gtf2db.gtf2db; with VERIF_C20_HOLD_USE=1 also "use": after convert_gtf_to_db has
+returned the database the run goes on to use (C20Stable).
 """
 import atexit
 import builtins
@@ -176,7 +177,13 @@ def install():
 
     def convert_gtf_to_db(args):
         try:
-            return G.convert_gtf_to_db(args)
+            r = G.convert_gtf_to_db(args)
+            if os.environ.get("VERIF_C20_HOLD_USE") == "1":
+                # C20Stable: one more barrier between the moment the run took its database (cache hit or own conversion)
+                # and the moment it goes on to use it (every worker opens that path); only for cases that ask for it, so
+                # the slot counts of the other schedules are unchanged
+                barrier("use", 0)
+            return r
         finally:
             mark_done()          # the cache phase of this run is over
     IQ.convert_gtf_to_db = convert_gtf_to_db
